@@ -559,4 +559,89 @@ OK("c11-benign-more-serialising", "C11", "soap.py",
    "def parse_soap_enveloped_saml_thingy(text, expected_tags):",
    "def dump_element(elem):\n    return ElementTree.tostring(elem, encoding=\"UTF-8\")\n\n\ndef parse_soap_enveloped_saml_thingy(text, expected_tags):")
 
+# ------------------------------------------------------------------ C12
+V("c12-child-key-wrong-ns", "C12", "saml.py",
+  "c_children['{urn:oasis:names:tc:SAML:2.0:assertion}SubjectLocality'] = (",
+  "c_children['{urn:oasis:names:tc:SAML:2.0:protocol}SubjectLocality'] = (", rule="T1")
+V("c12-child-order-drops-member", "C12", "samlp.py",
+  "    c_child_order.extend(['issuer', 'signature', 'extensions', 'status'])",
+  "    c_child_order.extend(['issuer', 'signature', 'extensions'])", rule="T2")
+V("c12-ctor-forgets-member", "C12", "samlp.py",
+  "        self.status = status\n", "", rule="T4")
+V("c12-element-by-tag-wrong", "C12", "samlp.py",
+  "    'Response': Response,", "    'Response': LogoutResponse,", rule="T5")
+V("c12-extension-fallback-removed", "C12", "__init__.py",
+  "        else:\n            ExtensionContainer._convert_element_tree_to_member(self, child_tree)",
+  "        else:\n            pass", rule="E1")
+V("c12-ext-attr-fallback-removed", "C12", "__init__.py",
+  "            ExtensionContainer._convert_element_attribute_to_member(\n                self, attribute, value)",
+  "            pass", rule="E1")
+V("c12-writer-skips-extensions", "C12", "__init__.py",
+  "        ExtensionContainer._add_members_to_element_tree(self, tree)\n\n    def become_child_element_of",
+  "        tree.text = self.text\n\n    def become_child_element_of", rule="E2")
+V("c12-text-not-read", "C12", "__init__.py",
+  "            self._convert_element_attribute_to_member(attribute, value)\n        self.text = tree.text",
+  "            self._convert_element_attribute_to_member(attribute, value)", rule="E1")
+V("c12-late-binding-wrong-ns-again", "C12", "xmlenc/__init__.py",
+  "    _key_info_class.c_children['{%s}EncryptedKey' % NAMESPACE] = (",
+  "    _key_info_class.c_children['{%s}EncryptedKey' % ds.NAMESPACE] = (", rule="T1")
+V("c12-dup-member-name", "C12", "md.py",
+  "    c_attributes['isDefault'] = ('is_default', 'boolean', False)",
+  "    c_attributes['isDefault'] = ('index', 'boolean', False)", rule="T3", count=2)
+OK("c12-benign-docstring", "C12", "__init__.py",
+   "        # Find the element's tag in this class's list of child members",
+   "        # Look the element's tag up in this class's table of child members")
+
+# ------------------------------------------------------------------ C13
+V("c13-type-name-typo", "C13", "validate.py",
+  "        return VALIDATOR.get(typ, valid_string)(value)", "        return VALIDATOR[typ](value)",
+  rule="V1")
+V("c13-cardinality-wrong-member", "C13", "saml.py",
+  "    c_cardinality['audience_restriction'] = {\"min\": 0}",
+  "    c_cardinality['audience_restrictions'] = {\"min\": 0}", rule="V2")
+V("c13-min-gt-max", "C13", "samlp.py",
+  "    c_cardinality['status_detail'] = {\"min\": 0, \"max\": 1}",
+  "    c_cardinality['status_detail'] = {\"min\": 2, \"max\": 1}", rule="V3")
+V("c13-required-not-enforced", "C13", "validate.py",
+  "        if required and not value:\n            txt = \"Required value on property '%s' missing\" % name\n            raise MustValueError(\"Class '%s' instance: %s\" % (class_name, txt))",
+  "        if required and not value:\n            txt = \"Required value on property '%s' missing\" % name\n            logger = None",
+  rule="V4")
+V("c13-max-not-enforced", "C13", "validate.py",
+  "                if _cmax is not None and vlen > _cmax:", "                if _cmax is not None and vlen > _cmax + 1:",
+  rule="V4")
+V("c13-min-flipped", "C13", "validate.py",
+  "                if _cmin is not None and _cmin > vlen:", "                if _cmin is not None and _cmin < vlen:",
+  rule="V4")
+V("c13-no-recursion-into-lists", "C13", "validate.py",
+  "                for val in value:\n                    # That it is the right class is handled elsewhere\n                    _valid_instance(instance, val)",
+  "                pass", rule="V4")
+V("c13-typed-only-if-required", "C13", "validate.py",
+  "        if value:\n            try:\n                if isinstance(typ, type):",
+  "        if value and required:\n            try:\n                if isinstance(typ, type):",
+  rule="V4")
+V("c13-absent-min-ignored", "C13", "validate.py",
+  "            if _cmin:\n                raise NotValid(", "            if _cmin and _cmax:\n                raise NotValid(",
+  rule="V4")
+V("c13-override-no-delegate", "C13", "saml.py",
+  "            assert len(self.proxy_restriction) == 1\n\n        return SamlBase.verify(self)",
+  "            assert len(self.proxy_restriction) == 1\n\n        return True", rule="V5")
+V("c13-boolean-accepts-all", "C13", "validate.py",
+  "    if vall in [\"true\", \"false\", \"0\", \"1\"]:\n        return True\n    else:\n        raise NotValid(\"boolean\")",
+  "    return True", rule="V6")
+V("c13-validator-table-swap", "C13", "validate.py",
+  "    \"boolean\": valid_boolean,", "    \"boolean\": valid_string,", rule="V6")
+V("c13-datetime-swallow", "C13", "validate.py",
+  "        time_util.str_to_time(item)\n    except Exception:\n        raise NotValid(\"dateTime\")",
+  "        time_util.str_to_time(item)\n    except Exception:\n        pass", rule="V6")
+V("c13-positive-sign", "C13", "validate.py",
+  "    if integer > 0:\n        return True", "    if integer >= 0:\n        return True", rule="V6")
+V("c13-response-not-validated", "C13", "response.py",
+  "        try:\n            valid_instance(self.response)\n        except NotValid as exc:\n            logger.error(\"Not valid response: %s\", exc.args[0])\n            self._clear()\n            return self\n",
+  "", rule="V7")
+V("c13-invalid-response-kept", "C13", "response.py",
+  "            logger.error(\"Not valid response: %s\", exc.args[0])\n            self._clear()\n            return self",
+  "            logger.error(\"Not valid response: %s\", exc.args[0])", rule="V7")
+OK("c13-benign-message-text", "C13", "validate.py",
+   '"less then min (%s<%s)"', '"fewer than min (%s<%s)"')
+
 VARIANTS[:] = [v for v in VARIANTS if v]
